@@ -245,15 +245,6 @@ func (h *Handler) commit() error {
 			h.tempFile.fp = nil
 		}
 
-		if err := vhook.Step("h.commit.remove", h.path); err != nil {
-			return err
-		}
-		if Exists(h.path) {
-			if err := os.Remove(h.path); err != nil {
-				return err
-			}
-		}
-
 		if err := vhook.Step("h.commit.rename", h.path); err != nil {
 			return err
 		}
